@@ -191,6 +191,34 @@ def coqc_file(path, timeout=600):
     return p.returncode, p.stdout
 
 
+def run_text_probes(ck, probes):
+    """Directed probes for recorded findings that no generated family reaches.  A probe is a dict: slug, src (one module or a list of
+    sources), want / forbid (regular expressions over the generated text with all white-space removed), optional config.  While the
+    implementation misses a `want` or shows a `forbid`, the probe is a hit of the known finding `slug` (a violation if the slug is not
+    listed); when the implementation is repaired the probe is silent."""
+    if not probes:
+        return
+    cases = [{'op': 'compile', 'sources': p['src'] if isinstance(p['src'], list) else [p['src']], 'config': p.get('config', {}), 'text': True}
+             for p in probes]
+    for p, r in zip(probes, run_harness(cases)):
+        ck.note_case('probe:' + json.dumps(p['src']))
+        ck.count('probe')
+        if 'panic' in r or 'crash' in r:
+            ck.violation('impl-crash', p['src'], impl=r)
+            continue
+        text = re.sub(r'\s+', '', r.get('generated') or '') if r.get('ok') else ''
+        missing = [w for w in p.get('want', []) if not re.search(w, text)]
+        present = [w for w in p.get('forbid', []) if re.search(w, text)]
+        if p.get('warn_free') and r.get('warnings'):
+            continue                      # reported, not silent: outside this probe
+        if missing or present or not r.get('ok'):
+            info = {'asn1': p['src'], 'missing': missing, 'unexpected': present, 'ok': bool(r.get('ok'))}
+            if ck.is_known(p['slug']):
+                ck.known_hit(p['slug'], info)
+            else:
+                ck.violation('impl-violation', p['src'], missing=missing, unexpected=present, why=p.get('why', 'directed probe %s fails' % p['slug']))
+
+
 def print_assumptions(prop, requires, names):
     """Run `Print Assumptions` on each theorem; returns {name: 'closed' | [axioms]} (or raises Broken)."""
     d = os.path.join(CACHE, 'audit')
